@@ -17,6 +17,7 @@
   Structural statements hold over any carrier; arithmetic ones over a linearly ordered field.
 -/
 import Alpaqa.Proofs.ZerofprStep
+import Alpaqa.Proofs.ZerofprExample
 
 namespace Alpaqa.Props.C05_Zerofpr
 open Alpaqa Alpaqa.Zerofpr Alpaqa.Gen
@@ -303,4 +304,19 @@ example : zerofpr_linesearchViolated false (1/2 : ℚ) 0 1 0 4 (1/2) (-2) (1/2) 
 example : (0 : ℚ) < 1/2 ∧ (1/2 : ℚ) * 1 ≤ 1 ∧ ((1/2 : ℚ) / 2) * (1 * 2) = (1/2) * 1 := by norm_num
 
 end field
+
+section examples
+open Alpaqa.Zerofpr.Example
+
+/-- the concrete solve of `Proofs/ZerofprExample.lean`: accelerated steps (`τ = 1`) accepted in
+    iterations 1 and 2, envelope `5/2 → 1/4 → 1/64 → 1/1024`, `γ = 1/2` and `γ·L = 1/2 = Lγ_factor`
+    throughout; the hypotheses of the solve-level theorem hold. -/
+example : (exRun (fun _ => false)).callbacks.map (·.fbe) = [5/2, 1/4, 1/64, 1/1024] ∧
+    (exRun (fun _ => false)).callbacks.map (·.tau) = [0, 1, 1, -1] ∧
+    (exRun (fun _ => false)).callbacks.map (·.it.gamma) = [1/2, 1/2, 1/2, 1/2] ∧
+    (exRun (fun _ => false)).callbacks.map (fun cb => cb.it.gamma * cb.it.L) = [1/2, 1/2, 1/2, 1/2] ∧
+    0 < exPr.Lmin ∧ 0 < exPr.Lmax ∧ 0 < exPr.LgammaFactor ∧ exPr.forceLinesearch = false := by
+  decide +kernel
+
+end examples
 end Alpaqa.Props.C05_Zerofpr
